@@ -17,7 +17,7 @@ LIB = [
     ("under_score/baz", "baz", False), ("dash-ed/baz", "baz", False), ("dotted.v3/baz", "baz", False),
     # package names that look like parameter names
     ("z/s", "s", False), ("z/n", "n", False), ("z/err", "err", False), ("z/ctx", "ctx", False),
-    ("z/sync", "sync", True), ("z/mock", "mock", False), ("z/v", "v", False), ("z/fn", "fn", False),
+    ("z/sync", "sync", False), ("z/mock", "mock", False), ("z/v", "v", False), ("z/fn", "fn", False),
     ("z/s1", "s1", False), ("z/id", "id", False), ("z/http", "http", False),
     # distinct plain ones
     ("p/alpha", "alpha", False), ("p/beta", "beta", False), ("p/gamma", "gamma", False),
@@ -92,6 +92,10 @@ def write_library(root):
                 f.write("package dotimp\n\n// DotT is used through a dot import.\ntype DotT struct{}\n")
             else:
                 f.write(LIB_DECL % name)
+                if name == "sync":
+                    # a foreign package called sync with a look-alike of the standard lock (it excludes nobody)
+                    f.write("\n// RWMutex looks like sync.RWMutex and locks nothing.\ntype RWMutex struct{}\n\n"
+                            "func (*RWMutex) Lock()    {}\nfunc (*RWMutex) Unlock()  {}\nfunc (*RWMutex) RLock()   {}\nfunc (*RWMutex) RUnlock() {}\n")
     # destination probes: directories that exist under the module root
     for rel, name in (("other2", "other2"), ("probe/same", "same")):
         d = os.path.join(root, rel)
